@@ -371,6 +371,10 @@ def session(rng, outcome, inject_at, injection):
         order = ["s0", "s1", "s2", "s3", "s4", "s5"]
     ops = []
     for st in order:
+        if inject_at == st + "m":
+            # in the SAME loop turn as the stage's environment event (before the task waiting for it has resumed)
+            ops += stages[st][:1] + injection + stages[st][1:]
+            continue
         ops += stages[st]
         if st == inject_at:
             ops += injection
@@ -384,7 +388,7 @@ def gen(ck: Check):
     outcomes = ["ok", "ok", "resolve_fail", "sock_fail", "hello_bad", "between"]
     # systematic: a close cause at every stage of the second session (the first one is a full session that hands out
     # closures), same turn and after an idle turn, followed by every probe
-    for stage in ["s0", "s1", "s2", "s3", "s4", "s5"]:
+    for stage in ["s0", "s1", "s1m", "s2", "s2m", "s3", "s4", "s5", "s5m"]:
         for cause in CLOSES:
             for same_turn in (True, False):
                 for probe in probes:
